@@ -123,7 +123,8 @@ def obligations(tier, seed):
                           defines=_defs(y0, y1, om, {"C14_PILCLS": cls}), bounds=b, reach=creach,
                           timeout=300 if tr == "quick" else 1500, mem_gb=4, **common))
 
-    obs.append(Ob("lto_to_time_epoch_edge", func="h_lto_to_time_epoch", tier="thorough",
+    obs.append(Ob("lto_to_time_epoch_edge", func="h_lto_to_time_epoch",    # quick: measured 1.2 s / 60 MB
+                 
                   desc="vbi_pil_lto_to_time with start in 1969..1970 (64-bit time_t: all results representable): conversion correct, negative results returned; "
                        "the region within the UTC offset of the epoch (seconds_east < 0 and start + seconds_east < 0; seconds_east > 0 and result < 0) was refused before the fix recorded in known_findings.json",
                   encodes=["vbi_pil_lto_to_time", "valid_pil_lto_to_time"] + ENC_COMMON,
@@ -134,6 +135,6 @@ def obligations(tier, seed):
                   desc="valid_pil_validity_window (static) when the 1st or 2nd mktime fails: returns FALSE after the first failure, TZ restored; "
                        "errno == mktime's EOVERFLOW (saved_errno was read uninitialised there before the fix recorded in known_findings.json)",
                   encodes=["valid_pil_validity_window", "localtime_tz"] + ENC_COMMON,
-                  defines=_defs(Q[0], Q[1], Q[2], {}),
+                  defines=_defs(Q[0], Q[1], Q[2], {"C14_NATIVE_NOOPT": None}),   # native replay: pdc.c unoptimised + patterned stack (uninitialised read must replay)
                   bounds="valid PIL, years %d..%d, mktime failure forced on call 1 or 2" % (Q[0], Q[1]), timeout=300, **common))
     return obs
